@@ -467,7 +467,8 @@ def finish_case(rng, case):
 
 
 def gen_error_case(rng):
-    """error paths of evaluate_on: the exception TYPE is the expected behaviour"""
+    """inputs outside the quantifier that evaluate_on must reject (any exception) rather than silently evaluate;
+    expect_error only records the type the pinned code raises"""
     kind = rng.choice(["policy-action-not-in-mdp", "discount-above-one", "positive-reward-undiscounted"])
     g = {"policy-action-not-in-mdp": rng.choice(["9/10", "1"]), "discount-above-one": rng.choice(["11/10", "2"]),
          "positive-reward-undiscounted": "1"}[kind]
@@ -780,9 +781,12 @@ def run(ctx):
             continue
         if case.get("expect_error"):
             cnt["error_path_cases"] += 1
-            if res.get("raised") != case["expect_error"]:
-                ctx.violation("C02:error-path:%s:expected-%s-got-%s" % (case["error_kind"], case["expect_error"], res.get("raised")),
-                              {"case": case, "raised": res.get("raised")}, found=True)
+            # inputs outside the property's quantifier: the property does not fix the exception TYPE; the probe only
+            # requires that such an input is rejected (any exception) instead of being silently evaluated
+            if res.get("raised") is None:
+                ctx.violation("C02:error-path:%s:silently-evaluated" % case["error_kind"],
+                              {"case": case, "raised": None, "usual_exception": case["expect_error"]}, found=True)
+            cnt["error_path_exception_types"] = sorted(set(cnt.get("error_path_exception_types") or []) | {str(res.get("raised"))})
             continue
         evs = res.get("evals") or [res]
         if res.get("first_result_changed"):
